@@ -106,6 +106,51 @@ def rand_cp(rng):
     return chr(rng.randrange(0x10000, 0x110000))
 
 
+_NUMERIC = None
+
+
+def numeric_code_points():
+    """every code point that is a digit/number for ANY of str.isdecimal / isdigit / isnumeric, all scripts"""
+    global _NUMERIC
+    if _NUMERIC is None:
+        import sys
+        _NUMERIC = [c for c in range(sys.maxunicode + 1) if chr(c).isdecimal() or chr(c).isdigit() or chr(c).isnumeric()]
+    return _NUMERIC
+
+
+def sigil_texts(run):
+    """Word characters of every class DIRECTLY after `$` and in the other places a name can stand (inside identifiers,
+    after `.`, as a function name, as keyword-argument name and value, after an illegal sigil), with emphasis on the
+    characters some str predicate calls a digit; very long digit runs after `$`."""
+    import gen_charclass
+    rng = run.rng
+    nums = numeric_code_points()
+    digit_only = [c for c in nums if chr(c).isdigit() and not chr(c).isdecimal()]
+    decimal = [c for c in nums if chr(c).isdecimal()]
+    numeric_only = [c for c in nums if not chr(c).isdigit()]
+    if run.quick:
+        chosen = digit_only[::2] + rng.sample(digit_only, 24) + decimal[::10] + decimal[9::10][:20] + rng.sample(decimal, 30) + \
+            rng.sample(numeric_only, 120)
+    else:
+        chosen = nums
+    wr = gen_charclass.sweep(r"\w")
+    ranges = wr if not run.quick else rng.sample(wr, 120)
+    for lo, hi in ranges:
+        chosen += [lo, hi] if lo != hi else [lo]
+    out = []
+    for cp in dict.fromkeys(chosen):
+        c = chr(cp)
+        out += ["$" + c, "$" + c + c, "$0" + c, "$a" + c, "$" + c + "a", "x." + c, "x." + c + "()", c, c + c + "(1)",
+                "f(" + c + " => $" + c + ")", "#" + c, "@" + c, "$" + c + "(", "[$" + c + ", $" + c + "1]", "$." + c, "a" + c + "b"]
+    for n in [4299, 4300, 4301, 5000] + ([100000] if True else []):
+        out += ["$" + "7" * n, "$" + "0" * n, "$" + "٣" * n, "$" + "1" * n + "a", "$x" + "1" * n, "$" + "1" * n + " + 1",
+                "f($" + "9" * n + ")"]
+    for z in [0x660, 0x966, 0xff10, 0x1d7ce]:
+        out += ["$" + "".join(chr(z + rng.randrange(10)) for _ in range(k)) for k in (1, 2, 5, 19, 40)]
+    out += ["$0", "$00", "$01", "$007", "$1", "$10", "$01a", "$_1", "$1_", "$²", "$①", "$٣", "$1٣", "$½", "$Ⅷ", "$一", "$$1", "$ 1"]
+    return out
+
+
 def gen_texts(run):
     rng = run.rng
     texts = []
@@ -151,6 +196,8 @@ def gen_texts(run):
         add("escape", t)
     for t in long_texts(run):
         add("long", t)
+    for t in sigil_texts(run):
+        add("sigil", t)
     for c in range(0, 256):
         add("cp", chr(c))
     for c in ["\ud800", "\udfff", "\U0001f600", "\U0010ffff", " ", "٠", "‿"]:
@@ -283,8 +330,8 @@ def correspondence(run):
         cases.append(case_term(t, toks, end, out))
         meta.append((kind, t, toks, end, out))
     # long texts go into small shards so that they spread over the workers
-    order = sorted(range(len(cases)), key=lambda i: meta[i][0] != "long")
-    nlong = sum(1 for m in meta if m[0] == "long")
+    order = sorted(range(len(cases)), key=lambda i: not (meta[i][0] == "long" or len(meta[i][1]) > 1000))
+    nlong = sum(1 for m in meta if m[0] == "long" or len(m[1]) > 1000)
     cases = [cases[i] for i in order]
     meta = [meta[i] for i in order]
     custom_table_correspondence(run)
